@@ -1049,3 +1049,975 @@ Section WithOrd.
       + intros q'. rewrite Eq6. discriminate.
       + intros tid'. rewrite Hr. discriminate.
   Qed.
+
+  (* ---------------------------------------------------- handles: the easy ones *)
+
+  Lemma pop_ready : forall (h : handle) r l,
+    NoDup l -> l = h :: r -> NoDup r /\ ~ In h r /\ (forall h', In h' r <-> (In h' l /\ h' <> h)).
+  Proof.
+    intros h r l Hn ->. inversion Hn; subst. splits; auto.
+    intros h'. simpl. split.
+    - intros H. split; auto. intros ->. tauto.
+    - intros [[ | ] ?]; congruence.
+  Qed.
+
+  Lemma noncur_not_rt : forall run s tid k, M run s -> ~ cur s tid -> rtasks s k <> Some tid.
+  Proof.
+    intros run s tid k HM Hn H. apply Hn. unfold cur.
+    destruct (m_rt HM _ H) as [_ ->]. exact H.
+  Qed.
+
+  (* a cancelled task (nobody's re-preparer any more) takes its step: it ends *)
+  Lemma finish_noncur_Inv : forall s tid h r c,
+    Inv None s -> ready s = h :: r ->
+    (h = HStart tid /\ status s tid = TNew) \/ (h = HWake tid /\ status s tid = TWoken) ->
+    ~ cur s tid ->
+    Inv None (finish tid c (set_ready r s)).
+  Proof.
+    intros s tid h r c [HM HK] Hr Hh Hnc. unfold finish. ssimpl. split.
+    - destruct (pop_ready (m_nodup HM) Hr) as (Hnd & Hnin & Hin).
+      assert (Hlt : tid < nt s).
+      { destruct (le_lt_dec (nt s) tid) as [Hge | ]; auto.
+        apply (m_fresh HM) in Hge. rewrite Hge in Hh. simpl in Hh.
+        destruct Hh as [[_ ?] | [_ ?]]; discriminate. }
+      assert (Hst : status s tid <> TDone /\ status s tid <> TRunning /\ status s tid <> TWaiting)
+        by (destruct Hh as [[_ ->] | [_ ->]]; splits; discriminate).
+      destruct Hst as (Hs1 & Hs2 & Hs3).
+      destruct HM. constructor; ssimpl; auto.
+      + apply NoDup_snoc; auto. rewrite Hin. intros [H _]. apply m_donecb0 in H. tauto.
+      + intros tid'. rewrite in_snoc, Hin, m_start0. fupd_case tid' tid; ssimpl.
+        * split; [intros [[H1 H2] | H] | ]; try discriminate.
+          destruct Hh as [[-> _] | [_ H]]; congruence.
+        * split; [intros [[H1 H2] | H] | ]; auto; try discriminate.
+          intros H. left. split; auto. intros H'. apply E.
+          destruct Hh as [[-> _] | [-> _]]; congruence.
+      + intros tid'. rewrite in_snoc, Hin, m_wake0. fupd_case tid' tid; ssimpl.
+        * split; [intros [[H1 H2] | H] | ]; try discriminate.
+          destruct Hh as [[_ H] | [-> _]]; congruence.
+        * split; [intros [[H1 H2] | H] | ]; auto; try discriminate.
+          intros H. left. split; auto. intros H'. apply E.
+          destruct Hh as [[-> _] | [-> _]]; congruence.
+      + intros tid'. rewrite in_snoc, Hin. intros [[H _] | H].
+        * destruct (m_donecb0 _ H). split; auto. fupd_case tid' tid; ssimpl; auto.
+        * inversion H; subst. rewrite fupd_eq. auto.
+      + intros tid'. fupd_case tid' tid; ssimpl; auto. split; discriminate.
+      + intros tid' Hge. rewrite fupd_neq by lia. auto.
+      + intros q g. fupd_case g tid; ssimpl; auto. rewrite m_getter0. split; intros [? ?]; congruence.
+      + intros tid' q. fupd_case tid' tid; ssimpl; eauto.
+      + intros tid' q. fupd_case tid' tid; ssimpl; eauto. discriminate.
+      + intros k tid' H. destruct (m_rt0 _ _ H). split; auto. fupd_case tid' tid; ssimpl; auto.
+      + intros tid'. unfold cur in *. ssimpl. fupd_case tid' tid; ssimpl; auto.
+      + intros tid'. fupd_case tid' tid; ssimpl; auto. discriminate.
+    - intros k. destruct (HK k) as (A & B & C). split; [ | split]; [ | exact B | ].
+      + apply KC_same with (s := s); auto.
+      + intros tid'. ssimpl. intros H.
+        assert (tid' <> tid) by (intros ->; eapply noncur_not_rt; eauto).
+        rewrite fupd_neq by auto. auto.
+  Qed.
+
+  (* a done-callback of a task that is not the current re-preparer does nothing *)
+  Lemma donecb_Inv : forall s tid r,
+    Inv None s -> ready s = HDoneCb tid :: r -> Inv None (run_handle (HDoneCb tid) (set_ready r s)).
+  Proof.
+    intros s tid r [HM HK] Hr.
+    assert (Hd : status s tid = TDone).
+    { apply (m_donecb HM). rewrite Hr. now left. }
+    assert (Hn : rtasks s (t_key (tasks s tid)) <> Some tid).
+    { intros H. destruct (HK (t_key (tasks s tid))) as (_ & _ & C).
+      destruct (C _ H) as (_ & H2 & _). tauto. }
+    assert (E : run_handle (HDoneCb tid) (set_ready r s) = set_ready r s).
+    { unfold run_handle. ssimpl. destruct (rtasks s (t_key (tasks s tid))) as [tid' | ]; auto.
+      destruct (Nat.eqb_spec tid' tid); auto. congruence. }
+    rewrite E. split.
+    - destruct (pop_ready (m_nodup HM) Hr) as (Hnd & Hnin & Hin).
+      destruct HM. constructor; ssimpl; auto.
+      + intros tid'. rewrite Hin, m_start0. split; [tauto | ]. intros H; split; auto. discriminate.
+      + intros tid'. rewrite Hin, m_wake0. split; [tauto | ]. intros H; split; auto. discriminate.
+      + intros tid'. rewrite Hin. intros [H _]. auto.
+    - intros k. destruct (HK k) as (A & B & C). split; [ | split]; [ | exact B | exact C].
+      apply KC_same with (s := s); auto.
+  Qed.
+
+  (* ------------------------------------------------- the monitor takes a step *)
+
+  (* [tid] is the re-preparer of [k], it is being stepped, [q] is k's queue *)
+  Definition Running (tid k q : nat) (s : state) : Prop :=
+    Inv (Some tid) s /\ rtasks s k = Some tid /\ queues s k = Some q.
+
+  Lemma Running_facts : forall tid k q s,
+    Running tid k q s ->
+    status s tid = TRunning /\ t_key (tasks s tid) = k /\ t_cancel (tasks s tid) = false /\
+    t_queue (tasks s tid) = Some q /\ cache s k <> None /\
+    q_shut (heap s q) = false /\ ~ In EKill (q_items (heap s q)) /\ ptimes s k <> None.
+  Proof.
+    intros tid k q s ([HM HK] & Hr & Hq).
+    destruct (HK k) as (A & B & C).
+    assert (Hs : status s tid = TRunning) by (apply (m_running HM); auto).
+    destruct (C _ Hr) as (C1 & C2 & C3). destruct (B _ Hq) as [B1 B2].
+    destruct (m_rt HM _ Hr) as [_ Hk].
+    assert (cache s k <> None) by (apply (k_own A); congruence).
+    splits; auto.
+    - rewrite <- Hq. apply C3. rewrite Hs. discriminate.
+    - apply (k_pt A); auto.
+  Qed.
+
+  (* [s'] is [s] with the head handle removed and task [tid] replaced by [t] *)
+  Record Retask (s s' : state) (tid : nat) (t : task) (r : list handle) : Prop := {
+    r_cache : cache s' = cache s; r_subs : subs s' = subs s; r_rsubs : rsubs s' = rsubs s;
+    r_queues : queues s' = queues s; r_heap : heap s' = heap s; r_nq : nq s' = nq s;
+    r_nt : nt s' = nt s; r_rtasks : rtasks s' = rtasks s; r_ptimes : ptimes s' = ptimes s;
+    r_clock : clock s' = clock s; r_bound : bound s' = bound s; r_err : err s' = err s;
+    r_ready : ready s' = r;
+    r_task : tasks s' tid = t;
+    r_others : forall tid', tid' <> tid -> tasks s' tid' = tasks s tid'
+  }.
+
+  Lemma cur_dec : forall s tid, cur s tid \/ ~ cur s tid.
+  Proof.
+    intros. unfold cur. destruct (rtasks s (t_key (tasks s tid))) as [t | ].
+    - destruct (Nat.eq_dec t tid); [left | right]; congruence.
+    - right. discriminate.
+  Qed.
+
+  Lemma enter_Running : forall s s' tid h r k q c,
+    Inv None s -> ready s = h :: r ->
+    (h = HStart tid /\ status s tid = TNew) \/
+    (h = HWake tid /\ status s tid = TWoken) ->
+    t_cancel (tasks s tid) = false ->
+    t_key (tasks s tid) = k -> queues s k = Some q ->
+    Retask s s' tid (mkT k (Some q) TRunning false c) r ->
+    Running tid k q s'.
+  Proof.
+    intros s s' tid h r k q c [HM HK] Hr Hh Hcan Hkey Hq R.
+    assert (Hcur : rtasks s k = Some tid).
+    { destruct (cur_dec s tid) as [H | H]; [unfold cur in H; congruence | ].
+      destruct (m_noncur HM H) as [H1 | [H1 _]]; [ | congruence].
+      destruct Hh as [[_ H2] | [_ H2]]; congruence. }
+    assert (Hst : status s tid <> TDone /\ status s tid <> TRunning /\ status s tid <> TWaiting)
+      by (destruct Hh as [[_ ->] | [_ ->]]; splits; discriminate).
+    destruct Hst as (Hs1 & Hs2 & Hs3).
+    destruct (pop_ready (m_nodup HM) Hr) as (Hnd & Hnin & Hin).
+    destruct R. unfold Running. rewrite r_rtasks0, r_queues0. splits; auto. split.
+    - destruct HM.
+      constructor; rewrite ?r_ready0, ?r_heap0, ?r_queues0, ?r_nq0, ?r_nt0, ?r_rtasks0,
+        ?r_ptimes0, ?r_clock0, ?r_bound0, ?r_err0, ?r_subs0, ?r_rsubs0; auto.
+      + intros tid'. rewrite Hin, m_start0.
+        destruct (Nat.eq_dec tid' tid) as [-> | Hne]; [rewrite r_task0 | rewrite r_others0 by auto]; simpl.
+        * split; [intros [H1 H2] | discriminate]. destruct Hh as [[-> _] | [_ H]]; congruence.
+        * split; [tauto | ]. intros H. split; auto. destruct Hh as [[-> _] | [-> _]]; congruence.
+      + intros tid'. rewrite Hin, m_wake0.
+        destruct (Nat.eq_dec tid' tid) as [-> | Hne]; [rewrite r_task0 | rewrite r_others0 by auto]; simpl.
+        * split; [intros [H1 H2] | discriminate]. destruct Hh as [[_ H] | [-> _]]; congruence.
+        * split; [tauto | ]. intros H. split; auto. destruct Hh as [[-> _] | [-> _]]; congruence.
+      + intros tid'. rewrite Hin. intros [H Hne]. destruct (m_donecb0 _ H). split; auto.
+        destruct (Nat.eq_dec tid' tid) as [-> | Hne']; [congruence | rewrite r_others0 by auto; auto].
+      + intros tid'.
+        destruct (Nat.eq_dec tid' tid) as [-> | Hne]; [rewrite r_task0 | rewrite r_others0 by auto]; simpl.
+        * tauto.
+        * rewrite m_running0. split; [discriminate | congruence].
+      + intros tid' Hge.
+        assert (tid' <> tid).
+        { intros ->. apply m_fresh0 in Hge. rewrite Hge in Hs1. simpl in Hs1. congruence. }
+        rewrite r_others0 by auto. auto.
+      + intros q' g.
+        destruct (Nat.eq_dec g tid) as [-> | Hne]; [rewrite r_task0 | rewrite r_others0 by auto]; simpl; auto.
+        rewrite m_getter0. split; intros [? ?]; congruence.
+      + intros tid' q'.
+        destruct (Nat.eq_dec tid' tid) as [-> | Hne]; [rewrite r_task0 | rewrite r_others0 by auto]; simpl; eauto.
+        intros E; inversion E; subst. eauto.
+      + intros tid' q'.
+        destruct (Nat.eq_dec tid' tid) as [-> | Hne]; [rewrite r_task0 | rewrite r_others0 by auto]; simpl; eauto.
+        discriminate.
+      + intros k' tid' H. destruct (m_rt0 _ _ H). split; auto.
+        destruct (Nat.eq_dec tid' tid) as [-> | Hne]; [rewrite r_task0 | rewrite r_others0 by auto]; simpl; auto.
+        congruence.
+      + intros tid'. unfold cur. rewrite r_rtasks0.
+        destruct (Nat.eq_dec tid' tid) as [-> | Hne]; [rewrite r_task0 | rewrite r_others0 by auto]; simpl; auto.
+        tauto.
+      + intros tid'.
+        destruct (Nat.eq_dec tid' tid) as [-> | Hne]; [rewrite r_task0 | rewrite r_others0 by auto]; simpl; auto.
+        discriminate.
+    - intros k'. destruct (HK k') as (A & B & C). split; [ | split].
+      + apply KC_same with (s := s); congruence.
+      + intros q'. rewrite r_queues0, r_heap0. auto.
+      + intros tid'. rewrite r_rtasks0, r_queues0. intros H.
+        destruct (Nat.eq_dec tid' tid) as [-> | Hne]; [rewrite r_task0 | rewrite r_others0 by auto]; simpl; auto.
+        assert (k' = k) by (destruct (m_rt HM _ H); congruence). subst k'.
+        splits; auto. discriminate.
+  Qed.
+
+  Lemma suspend_Inv : forall tid k q s,
+    Running tid k q s -> q_items (heap s q) = [] -> Inv None (suspend tid q s).
+  Proof.
+    intros tid k q s HR Hitems.
+    destruct (Running_facts HR) as (Hst & Hkey & Hcan & Htq & Hcached & Hshut & Hnk & Hpt).
+    destruct HR as ([HM HK] & Hr & Hq).
+    unfold suspend. rewrite Hcan.
+    destruct (q_getter (heap s q)) as [g | ] eqn:Hg.
+    { exfalso. apply (m_getter HM) in Hg. destruct Hg as [Hg1 Hg2].
+      assert (Hc : cur s g).
+      { destruct (cur_dec s g) as [H | H]; auto.
+        destruct (m_noncur HM H) as [H1 | [_ [H1 | H1]]]; congruence. }
+      unfold cur in Hc. destruct (HK (t_key (tasks s g))) as (_ & _ & C).
+      destruct (C _ Hc) as (_ & _ & C3).
+      assert (queues s (t_key (tasks s g)) = Some q) by (rewrite <- C3; [auto | congruence]).
+      assert (t_key (tasks s g) = k) by (eapply (m_qinj HM); eauto).
+      assert (g = tid) by congruence. congruence. }
+    split.
+    - destruct HM. constructor; ssimpl; auto.
+      + intros tid'. fupd_case tid' tid; ssimpl; auto. rewrite m_start0, Hst. split; discriminate.
+      + intros tid'. fupd_case tid' tid; ssimpl; auto. rewrite m_wake0, Hst. split; discriminate.
+      + intros tid' H. destruct (m_donecb0 _ H). split; auto.
+        fupd_case tid' tid; ssimpl; auto. congruence.
+      + intros tid'. fupd_case tid' tid; ssimpl; [split; discriminate | ].
+        rewrite m_running0. split; [congruence | discriminate].
+      + intros tid' Hge. rewrite fupd_neq; auto. intros ->.
+        apply m_fresh0 in Hge. rewrite Hge in Hst. discriminate.
+      + intros q' g. fupd_case q' q; ssimpl; fupd_case g tid; ssimpl.
+        * tauto.
+        * split; [congruence | ]. intros [H1 H2].
+          assert (q_getter (heap s q) = Some g) by (apply m_getter0; auto). congruence.
+        * rewrite m_getter0, Hst. split; [intros [? ?]; discriminate | intros [_ ?]; congruence].
+        * apply m_getter0.
+      + intros tid' q'. fupd_case tid' tid; ssimpl; eauto.
+      + intros tid' q'. fupd_case tid' tid; ssimpl.
+        * intros _ E'. assert (q' = q) by congruence. subst. rewrite fupd_eq. auto.
+        * intros H1 H2. fupd_case q' q; ssimpl; eauto.
+      + intros k' tid' H. destruct (m_rt0 _ _ H). split; auto. fupd_case tid' tid; ssimpl; auto.
+      + intros tid'. unfold cur in *. ssimpl. fupd_case tid' tid; ssimpl; auto.
+        intros H. exfalso. apply H. congruence.
+      + intros q' n t. fupd_case q' q; ssimpl; eauto.
+      + intros tid'. fupd_case tid' tid; ssimpl; auto. congruence.
+    - clear Hkey. intros k'. destruct (HK k') as (A & B & C). split; [ | split].
+      + apply KC_same with (s := s); auto.
+      + intros q'. ssimpl. intros Hq'. fupd_case q' q; ssimpl; auto.
+      + intros tid'. ssimpl. intros H. fupd_case tid' tid; ssimpl; auto.
+        assert (Ek : k' = k) by (destruct (m_rt HM _ H), (m_rt HM _ Hr); congruence).
+        rewrite Ek. splits; auto; try discriminate. intros _. congruence.
+  Qed.
+
+  Lemma pop_Running : forall tid k q s e rest,
+    Running tid k q s -> q_items (heap s q) = e :: rest ->
+    Running tid k q (upd_queue q (fun Q => mkQ rest (q_shut Q) (q_getter Q)) s).
+  Proof.
+    intros tid k q s e rest ([HM HK] & Hr & Hq) Hitems.
+    unfold Running. ssimpl. splits; auto. split.
+    - destruct HM. constructor; ssimpl; auto.
+      + intros q' g. fupd_case q' q; ssimpl; auto.
+      + intros tid' q' H1 H2. fupd_case q' q; ssimpl; eauto.
+        rewrite (m_wait_empty0 _ _ H1 H2) in Hitems. discriminate.
+      + intros q' n t. fupd_case q' q; ssimpl; eauto.
+        intros H. apply (m_etime0 q n t). rewrite Hitems. now right.
+    - intros k'. destruct (HK k') as (A & B & C). split; [ | split]; [ | | exact C].
+      + apply KC_same with (s := s); auto.
+      + intros q'. ssimpl. intros Hq'. destruct (B _ Hq') as [B1 B2].
+        fupd_case q' q; ssimpl; auto. split; auto.
+        intros H. apply B2. rewrite Hitems. now right.
+  Qed.
+
+  (* a re-preparation leaves the resource's own queue and registration alone *)
+  Lemma hn_frame : forall run k deps st fin s,
+    M run s -> (forall r, In r deps -> k < r /\ r < bound s) -> st <= clock s ->
+    let s' := handle_notifications k deps st fin false s in
+    rtasks s' = rtasks s /\ queues s' = queues s /\ cache s' = cache s /\
+    forall q, queues s k = Some q -> heap s' q = heap s q.
+  Proof.
+    intros run k deps st fin s HM Hup Hst s'. unfold s', handle_notifications.
+    set (s1 := set_ptimes (fupd (ptimes s) k (Some st)) s).
+    assert (HM1 : M run s1) by (apply set_ptimes_M; auto).
+    rewrite (subscribe_only_to_eq (run := run)) by auto.
+    set (s2 := sub_result k deps s1).
+    assert (HM2 : M run s2) by (apply sub_result_M; auto).
+    pose proof (notify_Mild k fin s2) as F.
+    assert (E : match deps with
+                | [] => bump k (notify k fin s2)
+                | _ :: _ => bump k (notify k fin s2)
+                end = bump k (notify k fin s2)) by (destruct deps; auto).
+    rewrite E. ssimpl. rewrite (f_rtasks F), (f_queues F), (f_cache F). splits; auto.
+    intros q Hq. change (heap s q) with (heap s2 q). apply notify_other. intros r Hr Hqr.
+    change (queues s2 r) with (queues s r) in Hqr.
+    apply (m_inverse HM2) in Hr. apply (m_upward HM2) in Hr.
+    assert (r = k) by (eapply (m_qinj HM); eauto). lia.
+  Qed.
+
+  Lemma reprepare_Running : forall tid k q s,
+    Running tid k q s ->
+    Running tid k q (reprepare k s) /\ heap (reprepare k s) q = heap s q.
+  Proof.
+    intros tid k q s HR.
+    destruct (Running_facts HR) as (Hst & Hkey & Hcan & Htq & Hcached & Hshut & Hnk & Hpt).
+    destruct HR as ([HM HK] & Hr & Hq).
+    unfold reprepare. destruct (cache s k) as [e | ] eqn:Hc; [ | congruence].
+    destruct (HK k) as (A & B & C).
+    set (s1 := tick s). set (s2 := tick s1).
+    set (s3 := set_cache (fupd (cache s2) k (Some (mkC (c_version e) (c_deps e) (seen_now (c_deps e) s1)))) s2).
+    assert (HM3 : M (Some tid) s3) by (apply set_cache_M, tick_M, tick_M; auto).
+    assert (Hup : forall r, In r (c_deps e) -> k < r /\ r < bound s3).
+    { intros r Hin. apply (m_upward HM). rewrite (k_subs A), Hc. now apply dedup_In. }
+    assert (Hclk : clock s1 <= clock s3) by (unfold s3, s2, s1; ssimpl; lia).
+    pose proof (@hn_frame (Some tid) k (c_deps e) (clock s1) (clock s2) s3 HM3 Hup Hclk) as Fr.
+    cbv zeta in Fr. destruct Fr as (Fr1 & Fr2 & Fr3 & Fr4).
+    assert (HI : Inv (Some tid)
+                   (handle_notifications k (c_deps e) (clock s1) (clock s2) false s3)).
+    { eapply hn_Inv with (q := q) (e := mkC (c_version e) (c_deps e) (seen_now (c_deps e) s1)); auto.
+      - intros k' Hk'. destruct (HK k') as (A' & B' & C').
+        split; [ | split]; [ | exact B' | exact C'].
+        apply KC_same with (s := s); auto. unfold s3. ssimpl. now rewrite fupd_neq.
+      - unfold s3. ssimpl. apply fupd_eq.
+      - simpl. apply map_fst_seen_now.
+      - right. intros _. change (rtasks s3 k) with (rtasks s k). congruence. }
+    split.
+    - unfold Running. rewrite Fr1, Fr2. splits; auto.
+    - apply Fr4. exact Hq.
+  Qed.
+
+  Lemma monitor_loop_Inv : forall fuel tid k q s,
+    Running tid k q s -> List.length (q_items (heap s q)) < fuel ->
+    Inv None (monitor_loop fuel tid q s).
+  Proof.
+    induction fuel as [ | f IH]; intros tid k q s HR Hlen; [lia | ].
+    destruct (Running_facts HR) as (Hst & Hkey & Hcan & Htq & Hcached & Hshut & Hnk & Hpt).
+    simpl. destruct (q_items (heap s q)) as [ | e rest] eqn:Hitems.
+    - rewrite Hshut. eapply suspend_Inv; eauto.
+    - pose proof (pop_Running HR Hitems) as HR1.
+      set (s1 := upd_queue q (fun Q => mkQ rest (q_shut Q) (q_getter Q)) s) in *.
+      destruct e as [ | n t].
+      + exfalso. apply Hnk. now left.
+      + change (tasks s1 tid) with (tasks s tid). rewrite Hkey.
+        change (ptimes s1 k) with (ptimes s k).
+        destruct (ptimes s k) as [p | ]; [ | congruence].
+        assert (Hlen1 : List.length (q_items (heap s1 q)) < f).
+        { unfold s1. ssimpl. rewrite fupd_eq. simpl in *. lia. }
+        destruct (t <=? p).
+        * eapply IH; eauto.
+        * destruct (reprepare_Running HR1) as [HR2 Hh].
+          eapply IH; eauto. rewrite Hh. exact Hlen1.
+  Qed.
+
+  Lemma cur_queue : forall run s tid,
+    Inv run s -> cur s tid ->
+    exists q, queues s (t_key (tasks s tid)) = Some q /\ t_cancel (tasks s tid) = false /\
+              (status s tid <> TNew -> t_queue (tasks s tid) = Some q).
+  Proof.
+    intros run s tid [HM HK] Hc. unfold cur in Hc.
+    destruct (HK (t_key (tasks s tid))) as (A & B & C).
+    destruct (C _ Hc) as (C1 & C2 & C3).
+    destruct (queues s (t_key (tasks s tid))) as [q | ] eqn:Hq.
+    - exists q. auto.
+    - exfalso. apply (k_cq A); auto. apply (k_own A). congruence.
+  Qed.
+
+  Lemma run_handle_Inv : forall s h r,
+    Inv None s -> ready s = h :: r -> Inv None (run_handle h (set_ready r s)).
+  Proof.
+    intros s h r HI Hr. pose proof HI as [HM HK].
+    assert (Hin : In h (ready s)) by (rewrite Hr; now left).
+    destruct h as [tid | tid | tid].
+    - (* HStart *)
+      apply (m_start HM) in Hin. unfold run_handle. ssimpl. rewrite Hin.
+      destruct (t_cancel (tasks s tid)) eqn:Hcan.
+      + eapply finish_noncur_Inv; eauto.
+        intros Hc. destruct (cur_queue HI Hc) as (q & _ & H & _). congruence.
+      + assert (Hc : cur s tid).
+        { destruct (cur_dec s tid) as [H | H]; auto.
+          destruct (m_noncur HM H) as [H1 | [H1 _]]; congruence. }
+        destruct (cur_queue HI Hc) as (q & Hq & _ & _).
+        unfold Loop.register. ssimpl. rewrite Hq.
+        unfold Loop.monitor. eapply monitor_loop_Inv; [ | apply Nat.lt_succ_diag_r].
+        eapply enter_Running with (s := s) (h := HStart tid); eauto.
+        constructor; ssimpl; auto.
+        * rewrite !fupd_eq. unfold with_queue, with_status. simpl. rewrite Hcan. reflexivity.
+        * intros tid' Hne. now rewrite !fupd_neq.
+    - (* HWake *)
+      apply (m_wake HM) in Hin. unfold run_handle. ssimpl. rewrite Hin.
+      destruct (t_cancel (tasks s tid)) eqn:Hcan.
+      + eapply finish_noncur_Inv; eauto.
+        intros Hc. destruct (cur_queue HI Hc) as (q & _ & H & _). congruence.
+      + assert (Hc : cur s tid).
+        { destruct (cur_dec s tid) as [H | H]; auto.
+          destruct (m_noncur HM H) as [H1 | [H1 _]]; congruence. }
+        destruct (cur_queue HI Hc) as (q & Hq & _ & Htq).
+        rewrite Htq by (rewrite Hin; discriminate).
+        unfold Loop.monitor. eapply monitor_loop_Inv; [ | apply Nat.lt_succ_diag_r].
+        eapply enter_Running with (s := s) (h := HWake tid); eauto.
+        constructor; ssimpl; auto.
+        * rewrite fupd_eq. unfold with_status. simpl. rewrite Hcan, Htq by (rewrite Hin; discriminate). reflexivity.
+        * intros tid' Hne. now rewrite fupd_neq.
+    - apply donecb_Inv; auto.
+  Qed.
+
+  (* -------------------------------------------------- Yield, histories *)
+
+  Lemma run_handles_Inv : forall n s, Inv None s -> Inv None (run_handles n s).
+  Proof.
+    induction n as [ | n IH]; intros s HI; simpl; auto.
+    destruct (ready s) as [ | h r] eqn:Hr; auto.
+    apply IH. apply run_handle_Inv; auto.
+  Qed.
+
+  Definition wf_op (o : op) : Prop :=
+    match o with
+    | Offer k v deps => upward_deps k deps
+    | _ => True
+    end.
+
+  Lemma step_Inv : forall s o, Inv None s -> wf_op o -> Inv None (step s o).
+  Proof.
+    intros s o HI Hwf. unfold step. rewrite (m_err (proj1 HI)).
+    destruct o as [k v deps | k | ].
+    - apply offer_Inv; auto.
+    - apply delete_Inv; auto.
+    - apply run_handles_Inv; auto.
+  Qed.
+
+  Lemma init_Inv : Inv None init.
+  Proof.
+    split.
+    - constructor; simpl; intros; auto; try tauto; try discriminate; try lia; try constructor;
+        try (split; intros; try tauto; try discriminate; intuition discriminate).
+      all: intuition discriminate.
+    - intros k. split; [ | split].
+      + constructor; simpl; auto; try tauto; try discriminate.
+      + intros q; simpl; discriminate.
+      + intros tid; simpl; discriminate.
+  Qed.
+
+  Lemma run_from_Inv : forall ops s,
+    Inv None s -> Forall wf_op ops -> Inv None (fold_left step ops s).
+  Proof.
+    induction ops as [ | o ops IH]; intros s HI Hwf; simpl; auto.
+    inversion Hwf; subst. apply IH; auto. apply step_Inv; auto.
+  Qed.
+
+  Theorem run_Inv : forall ops, Forall wf_op ops -> Inv None (run ops).
+  Proof. intros. apply run_from_Inv; auto. apply init_Inv. Qed.
+
+  (* ============================================================ pending events *)
+
+  (* R's registered queue holds an event that is newer than R's preparation *)
+  Definition newer (s : state) (R : nat) : Prop :=
+    exists q p n t, queues s R = Some q /\ ptimes s R = Some p /\
+                    In (ERes n t) (q_items (heap s q)) /\ p < t.
+
+  (* R saw the current generation of every dependency, or such an event is waiting *)
+  Definition PendK (s : state) (R : nat) : Prop :=
+    forall e d g, cache s R = Some e -> In (d, g) (c_seen e) -> g = gens s d \/ newer s R.
+
+  Definition Pend (s : state) : Prop := forall R, PendK s R.
+  Definition PendBut (k : nat) (s : state) : Prop := forall R, R <> k -> PendK s R.
+
+  Lemma Mild_newer : forall e s s' R, Mild e s s' -> newer s R -> newer s' R.
+  Proof.
+    intros e s s' R F (q & p & n & t & H1 & H2 & H3 & H4).
+    exists q, p, n, t. rewrite (f_queues F), (f_ptimes F). splits; auto.
+    apply (f_items_mono F); auto.
+  Qed.
+
+  Lemma Mild_PendK : forall e s s' R, Mild e s s' -> PendK s R -> PendK s' R.
+  Proof.
+    intros e s s' R F P e' d g Hc Hin. rewrite (f_cache F) in Hc. rewrite (f_gens F).
+    destruct (P _ _ _ Hc Hin); auto. right. eapply Mild_newer; eauto.
+  Qed.
+
+  (* R's observable part is the same in s and s' *)
+  Lemma same_PendK : forall s s' R,
+    cache s' R = cache s R -> gens s' = gens s -> queues s' R = queues s R ->
+    ptimes s' R = ptimes s R ->
+    (forall q, queues s R = Some q -> q_items (heap s' q) = q_items (heap s q)) ->
+    PendK s R -> PendK s' R.
+  Proof.
+    intros s s' R E1 E2 E3 E4 E5 P e d g Hc Hin. rewrite E1 in Hc. rewrite E2.
+    destruct (P _ _ _ Hc Hin) as [ | (q & p & n & t & H1 & H2 & H3 & H4)]; auto.
+    right. exists q, p, n, t. rewrite E3, E4, E5; auto.
+  Qed.
+
+  (* the heart of the matter: after k was (re)built, everybody who declared k as
+     a dependency has a newer event in its queue *)
+  Lemma hn_Pend : forall run k deps st fin wp s e,
+    M run s -> (forall R, R <> k -> KInv s R) -> PendBut k s ->
+    cache s k = Some e -> (forall d g, In (d, g) (c_seen e) -> g = gens s d /\ In d deps) ->
+    (forall r, In r deps -> k < r /\ r < bound s) ->
+    st <= clock s -> fin <= clock s ->
+    (forall R p, ptimes s R = Some p -> p < fin) ->
+    Pend (handle_notifications k deps st fin wp s).
+  Proof.
+    intros run k deps st fin wp s e HM HK HP Hc Hseen Hup Hst Hfin Hpt.
+    unfold handle_notifications.
+    set (s1 := set_ptimes (fupd (ptimes s) k (Some st)) s).
+    assert (HM1 : M run s1) by (apply set_ptimes_M; auto).
+    rewrite (subscribe_only_to_eq (run := run)) by auto.
+    set (s2 := sub_result k deps s1).
+    assert (HM2 : M run s2) by (apply sub_result_M; auto).
+    pose proof (notify_Mild k fin s2) as F.
+    set (s3 := notify k fin s2) in *.
+    assert (HP3 : Pend (bump k s3)).
+    { intros R e' d g Hc' Hin. ssimpl. rewrite (f_cache F) in Hc'.
+      change (cache s2 R) with (cache s R) in Hc'.
+      destruct (Nat.eq_dec R k) as [-> | HR].
+      - (* k itself: freshly built *)
+        left. assert (e' = e) by congruence. subst e'.
+        destruct (Hseen _ _ Hin) as [-> Hd]. apply Hup in Hd.
+        rewrite fupd_neq by lia. now rewrite (f_gens F).
+      - destruct (HK _ HR) as (A & B & C).
+        assert (P2 : PendK s2 R).
+        { apply same_PendK with (s := s); auto.
+          unfold s2, sub_result, s1. ssimpl. now rewrite fupd_neq. }
+        destruct (Nat.eq_dec d k) as [-> | Hd].
+        + (* R declared k: the notification is in its queue *)
+          right.
+          assert (Hdep : In k (c_deps e')).
+          { rewrite <- (k_seen A Hc'). apply in_map_iff. exists (k, g). auto. }
+          assert (Hsub : In k (subs s2 R)).
+          { unfold s2, sub_result, s1. ssimpl. rewrite fupd_neq by auto.
+            rewrite (k_subs A), Hc'. now apply dedup_In. }
+          apply (m_inverse HM2) in Hsub.
+          destruct (queues s R) as [q | ] eqn:Hq; [ | exfalso; apply (k_cq A); congruence].
+          destruct (B _ Hq) as [Hshut _].
+          destruct (ptimes s R) as [p | ] eqn:Hp; [ | exfalso; apply (k_pt A); congruence].
+          exists q, p, k, fin. ssimpl. rewrite (f_queues F), (f_ptimes F).
+          splits; eauto.
+          * unfold s2, sub_result, s1. ssimpl. now rewrite fupd_neq.
+          * apply notify_delivers with (r := R); auto.
+        + rewrite fupd_neq by auto. rewrite (f_gens F).
+          pose proof (Mild_PendK F P2) as P3.
+          assert (Hc3 : cache s3 R = Some e') by (rewrite (f_cache F); exact Hc').
+          destruct (P3 e' d g Hc3 Hin) as [H | H]; auto.
+          left. now rewrite <- (f_gens F). }
+    destruct deps as [ | d0 deps']; [exact HP3 | ].
+    destruct wp; [ | exact HP3].
+    destruct (rtasks (bump k s3) k); exact HP3.
+  Qed.
+
+  Lemma register_Pend : forall run k s,
+    M run s -> (forall k', KInv s k') -> Pend s -> Pend (snd (register k s)).
+  Proof.
+    intros run k s HM HK HP. unfold register.
+    destruct (queues s k) as [q | ] eqn:Hq; [exact HP | ].
+    simpl. fold (alloc k s).
+    intros R. eapply Mild_PendK; [apply notify_Mild | ].
+    destruct (Nat.eq_dec R k) as [-> | HR].
+    - (* k is not cached *)
+      intros e d g Hc. exfalso. ssimpl. unfold alloc in Hc. ssimpl.
+      destruct (HK k) as (A & _ & _). apply (k_cq A); congruence.
+    - apply same_PendK with (s := s); auto.
+      + unfold alloc. ssimpl. now rewrite fupd_neq.
+      + intros q Hq'. unfold alloc. ssimpl. pose proof (m_qid HM _ Hq').
+        rewrite fupd_neq by lia. auto.
+  Qed.
+
+  Lemma offer_Pend : forall run k v deps s,
+    Inv run s -> Pend s -> upward_deps k deps -> Pend (offer k v deps s).
+  Proof.
+    intros run k v deps s [HM HK] HP Hup. unfold offer.
+    destruct (match cache s k with Some e => c_version e =? v | None => false end); auto.
+    set (s0 := raise_bound k deps s).
+    set (s1 := tick s0).
+    assert (HM1 : M run s1) by (apply tick_M, raise_bound_M; auto).
+    assert (HK1 : forall k', KInv s1 k') by (intros; apply tick_K, raise_bound_K; auto).
+    assert (HP1 : Pend s1) by exact HP.
+    pose proof (register_spec k HM1 HK1) as R.
+    pose proof (register_Pend k HM1 HK1 HP1) as HP2.
+    destruct (register k s1) as [q s2]. simpl in *.
+    destruct R as (HM2 & HK2 & Hq & Hlive & Htask & Ec & Es & Ers & Ert & Ept & Eg & Eb & Hclk & _).
+    eapply hn_Pend with (run := run).
+    - apply set_cache_M, tick_M; eauto.
+    - intros k' Hk'. destruct (HK2 _ Hk') as (A & B & C).
+      split; [ | split]; [ | exact B | exact C].
+      apply KC_same with (s := s2); auto. ssimpl. now rewrite fupd_neq.
+    - intros R HR. apply same_PendK with (s := s2); auto.
+      ssimpl. now rewrite fupd_neq.
+    - ssimpl. apply fupd_eq.
+    - simpl. unfold seen_now. intros d g Hin. apply in_map_iff in Hin.
+      destruct Hin as (d' & E & Hd). inversion E; subst. auto.
+    - intros r Hr. split; auto. ssimpl. rewrite Eb.
+      apply (@raise_bound_deps k deps s r). now right.
+    - unfold s1, s0 in *. ssimpl. lia.
+    - ssimpl. lia.
+    - intros R p. ssimpl. intros Hp. apply (m_ptime HM2) in Hp. lia.
+  Qed.
+
+  Lemma kill_q_other : forall q s q', q' <> q -> heap (kill_q q s) q' = heap s q'.
+  Proof.
+    intros. unfold kill_q. destruct (q_shut (heap s q)); auto.
+    ssimpl. rewrite fupd_neq by auto. now apply put_event_other.
+  Qed.
+
+  Lemma kill_q_ctl : forall q s,
+    cache (kill_q q s) = cache s /\ gens (kill_q q s) = gens s /\ queues (kill_q q s) = queues s /\
+    ptimes (kill_q q s) = ptimes s /\ subs (kill_q q s) = subs s /\ clock (kill_q q s) = clock s.
+  Proof.
+    intros. unfold kill_q. destruct (q_shut (heap s q)); [splits; auto | ].
+    pose proof (put_event_Mild q EKill s) as F. ssimpl.
+    rewrite (f_cache F), (f_gens F), (f_queues F), (f_ptimes F), (f_subs F), (f_clock F). splits; auto.
+  Qed.
+
+  Lemma delete_Pend : forall k s, Inv None s -> Pend s -> Pend (delete k s).
+  Proof.
+    intros k s [HM HK] HP. unfold delete.
+    destruct (cache s k) as [e | ] eqn:Hc; auto.
+    destruct (HK k) as (A & B & C).
+    destruct (queues s k) as [q | ] eqn:Hq; [ | exfalso; apply (k_cq A); congruence].
+    destruct (B _ Hq) as [Hshut Hnokill].
+    set (s1 := tick s).
+    set (s2 := set_cache (fupd (cache s1) k None) s1).
+    assert (HM2 : M None s2) by (apply set_cache_M, tick_M; auto).
+    unfold kill_resource. change (queues s2 k) with (queues s k). rewrite Hq.
+    set (s3 := kill_q q s2).
+    assert (HM3 : M None s3) by (apply kill_q_M; auto).
+    destruct (kill_q_ctl q s2) as (Ec3 & Eg3 & Eq3 & Ep3 & Es3 & Ecl3). fold s3 in Ec3, Eg3, Eq3, Ep3, Es3, Ecl3.
+    assert (Hshut3 : q_shut (heap s3 q) = true).
+    { unfold s3, kill_q. change (q_shut (heap s2 q)) with (q_shut (heap s q)). rewrite Hshut.
+      ssimpl. now rewrite fupd_eq. }
+    assert (Hnil : forall bb r, In r (@nil nat) -> k < r /\ r < bb) by (intros bb r Hr; destruct Hr).
+    unfold deregister.
+    rewrite (subscribe_only_to_eq (run := None)) by auto.
+    set (s4 := sub_result k [] s3).
+    assert (HM4 : M None s4) by (apply sub_result_M; auto).
+    change (queues s4 k) with (queues s3 k). rewrite Eq3. change (queues s2 k) with (queues s k). rewrite Hq.
+    assert (Ek4 : kill_q q s4 = s4).
+    { unfold kill_q. change (q_shut (heap s4 q)) with (q_shut (heap s3 q)). now rewrite Hshut3. }
+    rewrite Ek4. fold (unregister k q s4).
+    set (s5 := unregister k q s4).
+    assert (HM5 : M None s5) by (apply unregister_M; auto).
+    pose proof (notify_Mild k (clock s1) s5) as F.
+    set (s6 := notify k (clock s1) s5) in *.
+    (* everybody else's view is unchanged up to s5 *)
+    assert (Hsame : forall R, R <> k -> PendK s5 R /\ subs s5 R = subs s R /\
+                                       queues s5 R = queues s R /\ ptimes s5 R = ptimes s R /\
+                                       cache s5 R = cache s R /\
+                                       (forall qR, queues s R = Some qR -> q_shut (heap s5 qR) = q_shut (heap s qR))).
+    { intros R HR.
+      assert (Hh : forall qR, queues s R = Some qR -> heap s5 qR = heap s qR).
+      { intros qR HqR. assert (qR <> q) by (intros ->; apply HR; eapply (m_qinj HM); eauto).
+        unfold s5, unregister. ssimpl. rewrite fupd_neq by auto.
+        change (heap s4 qR) with (heap s3 qR). unfold s3. now rewrite kill_q_other. }
+      assert (E1 : cache s5 R = cache s R).
+      { unfold s5, unregister, s4, sub_result. ssimpl. rewrite Ec3. unfold s2. ssimpl. now rewrite fupd_neq. }
+      assert (E2 : queues s5 R = queues s R).
+      { unfold s5, unregister, s4, sub_result. ssimpl. rewrite fupd_neq by auto. now rewrite Eq3. }
+      assert (E3 : ptimes s5 R = ptimes s R).
+      { unfold s5, unregister, s4, sub_result. ssimpl. now rewrite Ep3. }
+      assert (E4 : subs s5 R = subs s R).
+      { unfold s5, unregister, s4, sub_result. ssimpl. rewrite fupd_neq by auto. now rewrite Es3. }
+      splits; auto.
+      - apply same_PendK with (s := s); auto.
+        intros qR HqR. now rewrite Hh.
+      - intros qR HqR. now rewrite Hh. }
+    assert (HP6 : Pend (bump k s6)).
+    { intros R e' d g Hc' Hin. ssimpl. rewrite (f_cache F) in Hc'.
+      destruct (Nat.eq_dec R k) as [-> | HR].
+      { exfalso. unfold s5, unregister, s4, sub_result in Hc'. ssimpl. rewrite Ec3 in Hc'.
+        unfold s2 in Hc'. ssimpl. rewrite fupd_eq in Hc'. discriminate. }
+      destruct (Hsame R HR) as (P5 & E4 & E2 & E3 & E1 & Hsh).
+      destruct (HK R) as (A' & B' & C'). rewrite E1 in Hc'.
+      destruct (Nat.eq_dec d k) as [-> | Hd].
+      - right.
+        assert (Hdep : In k (c_deps e')).
+        { rewrite <- (k_seen A' Hc'). apply in_map_iff. exists (k, g). auto. }
+        assert (Hsub : In k (subs s5 R)).
+        { rewrite E4, (k_subs A'), Hc'. now apply dedup_In. }
+        apply (m_inverse HM5) in Hsub.
+        destruct (queues s R) as [qR | ] eqn:HqR; [ | exfalso; apply (k_cq A'); congruence].
+        destruct (B' _ HqR) as [HshutR _].
+        destruct (ptimes s R) as [p | ] eqn:Hp; [ | exfalso; apply (k_pt A'); congruence].
+        exists qR, p, k, (clock s1). ssimpl. rewrite (f_queues F), (f_ptimes F), E2, E3.
+        splits; auto.
+        + apply notify_delivers with (r := R); auto. rewrite Hsh; auto.
+        + apply (m_ptime HM) in Hp. unfold s1. ssimpl. lia.
+      - rewrite fupd_neq by auto. rewrite (f_gens F).
+        pose proof (Mild_PendK F P5) as P6.
+        assert (Hc6 : cache s6 R = Some e') by (rewrite (f_cache F), E1; exact Hc').
+        destruct (P6 e' d g Hc6 Hin) as [H | H]; auto.
+        left. now rewrite <- (f_gens F). }
+    destruct (rtasks (bump k s6) k) as [tid | ]; [ | exact HP6].
+    pose proof (cancel_frame tid (set_rtasks (fupd (rtasks (bump k s6)) k None) (bump k s6))) as G.
+    cbv zeta in G. destruct G as (F1 & F2 & F3 & F4 & F5 & F6 & F7).
+    intros R. apply same_PendK with (s := bump k s6); auto.
+    - rewrite F1. reflexivity.
+    - unfold cancel. destruct (t_status _); ssimpl; auto.
+      destruct (t_queue _); ssimpl; auto.
+    - rewrite F3. reflexivity.
+    - rewrite F5. reflexivity.
+    - intros qR _. apply F6.
+  Qed.
+
+  Lemma reprepare_Pend : forall tid k q s,
+    Running tid k q s -> PendBut k s -> Pend (reprepare k s).
+  Proof.
+    intros tid k q s HR HP.
+    destruct (Running_facts HR) as (Hst & Hkey & Hcan & Htq & Hcached & Hshut & Hnk & Hpt).
+    destruct HR as ([HM HK] & Hr & Hq).
+    unfold reprepare. destruct (cache s k) as [e | ] eqn:Hc; [ | congruence].
+    destruct (HK k) as (A & B & C).
+    set (s1 := tick s). set (s2 := tick s1).
+    set (s3 := set_cache (fupd (cache s2) k (Some (mkC (c_version e) (c_deps e) (seen_now (c_deps e) s1)))) s2).
+    assert (HM3 : M (Some tid) s3) by (apply set_cache_M, tick_M, tick_M; auto).
+    eapply hn_Pend with (run := Some tid); eauto.
+    - intros R HR. destruct (HK R) as (A' & B' & C').
+      split; [ | split]; [ | exact B' | exact C'].
+      apply KC_same with (s := s); auto. unfold s3. ssimpl. now rewrite fupd_neq.
+    - intros R HR. apply same_PendK with (s := s); auto.
+      unfold s3. ssimpl. now rewrite fupd_neq.
+    - unfold s3. ssimpl. apply fupd_eq.
+    - simpl. unfold seen_now. intros d g Hin. apply in_map_iff in Hin.
+      destruct Hin as (d' & E & Hd). inversion E; subst. auto.
+    - intros r Hin. apply (m_upward HM). rewrite (k_subs A), Hc. now apply dedup_In.
+    - unfold s3, s2, s1. ssimpl. lia.
+    - intros R p. unfold s3, s2, s1. ssimpl. intros Hp. apply (m_ptime HM) in Hp. lia.
+  Qed.
+
+  Lemma pop_Pend : forall tid k q s n t rest,
+    Running tid k q s -> q_items (heap s q) = ERes n t :: rest ->
+    let s1 := upd_queue q (fun Q => mkQ rest (q_shut Q) (q_getter Q)) s in
+    (PendBut k s -> PendBut k s1) /\
+    (forall p, ptimes s k = Some p -> t <= p -> PendK s k -> PendK s1 k).
+  Proof.
+    intros tid k q s n t rest ([HM HK] & Hr & Hq) Hitems s1. split.
+    - intros HP R HR. apply same_PendK with (s := s); auto.
+      intros qR HqR. assert (qR <> q) by (intros ->; apply HR; eapply (m_qinj HM); eauto).
+      unfold s1. ssimpl. now rewrite fupd_neq.
+    - intros p Hp Hle P e d g Hc Hin.
+      destruct (P e d g Hc Hin) as [ | (q' & p' & n' & t' & H1 & H2 & H3 & H4)]; auto.
+      right. assert (q' = q) by congruence. subst q'. assert (p' = p) by congruence. subst p'.
+      exists q, p, n', t'. unfold s1. ssimpl. rewrite fupd_eq. simpl. splits; auto.
+      rewrite Hitems in H3. destruct H3 as [E | ]; auto. inversion E; subst. lia.
+  Qed.
+
+  Lemma suspend_Pend : forall tid q s, Pend s -> Pend (suspend tid q s).
+  Proof.
+    intros tid q s HP. unfold suspend.
+    destruct (t_cancel (tasks s tid)); [exact HP | ].
+    destruct (q_getter (heap s q)).
+    - unfold set_err. destruct (err s); exact HP.
+    - intros R. apply same_PendK with (s := s); auto.
+      intros qR _. ssimpl. fupd_case qR q; auto.
+  Qed.
+
+  Lemma monitor_loop_Pend : forall fuel tid k q s,
+    Running tid k q s -> Pend s -> List.length (q_items (heap s q)) < fuel ->
+    Pend (monitor_loop fuel tid q s).
+  Proof.
+    induction fuel as [ | f IH]; intros tid k q s HR HP Hlen; [lia | ].
+    destruct (Running_facts HR) as (Hst & Hkey & Hcan & Htq & Hcached & Hshut & Hnk & Hpt).
+    simpl. destruct (q_items (heap s q)) as [ | e rest] eqn:Hitems.
+    - rewrite Hshut. now apply suspend_Pend.
+    - pose proof (pop_Running HR Hitems) as HR1.
+      destruct e as [ | n t]; [exfalso; apply Hnk; now left | ].
+      destruct (pop_Pend HR Hitems) as [PB PK]. cbv zeta in PB, PK.
+      set (s1 := upd_queue q (fun Q => mkQ rest (q_shut Q) (q_getter Q)) s) in *.
+      change (tasks s1 tid) with (tasks s tid). rewrite Hkey.
+      change (ptimes s1 k) with (ptimes s k).
+      destruct (ptimes s k) as [p | ] eqn:Hp; [ | congruence].
+      assert (Hlen1 : List.length (q_items (heap s1 q)) < f).
+      { unfold s1. ssimpl. rewrite fupd_eq. simpl in *. lia. }
+      assert (HPB : PendBut k s1) by (apply PB; intros R _; apply HP).
+      destruct (t <=? p) eqn:Hle.
+      + apply Nat.leb_le in Hle. eapply IH; eauto.
+        intros R. destruct (Nat.eq_dec R k) as [-> | HR']; auto.
+        apply (PK p eq_refl Hle (HP k)).
+      + destruct (reprepare_Running HR1) as [HR2 Hh].
+        eapply IH; eauto.
+        * eapply reprepare_Pend; eauto.
+        * rewrite Hh. exact Hlen1.
+  Qed.
+
+  Lemma run_handle_Pend : forall s h r,
+    Inv None s -> Pend s -> ready s = h :: r -> Pend (run_handle h (set_ready r s)).
+  Proof.
+    intros s h r HI HP Hr. pose proof HI as [HM HK].
+    assert (Hin : In h (ready s)) by (rewrite Hr; now left).
+    destruct h as [tid | tid | tid].
+    - apply (m_start HM) in Hin. unfold run_handle. ssimpl. rewrite Hin.
+      destruct (t_cancel (tasks s tid)) eqn:Hcan; [exact HP | ].
+      assert (Hc : cur s tid).
+      { destruct (cur_dec s tid) as [H | H]; auto.
+        destruct (m_noncur HM H) as [H1 | [H1 _]]; congruence. }
+      destruct (cur_queue HI Hc) as (q & Hq & _ & _).
+      unfold Loop.register. ssimpl. rewrite Hq.
+      unfold Loop.monitor. eapply monitor_loop_Pend; [ | exact HP | apply Nat.lt_succ_diag_r].
+      eapply enter_Running with (s := s) (h := HStart tid); eauto.
+      constructor; ssimpl; auto.
+      + rewrite !fupd_eq. unfold with_queue, with_status. simpl. rewrite Hcan. reflexivity.
+      + intros tid' Hne. now rewrite !fupd_neq.
+    - apply (m_wake HM) in Hin. unfold run_handle. ssimpl. rewrite Hin.
+      destruct (t_cancel (tasks s tid)) eqn:Hcan; [exact HP | ].
+      assert (Hc : cur s tid).
+      { destruct (cur_dec s tid) as [H | H]; auto.
+        destruct (m_noncur HM H) as [H1 | [H1 _]]; congruence. }
+      destruct (cur_queue HI Hc) as (q & Hq & _ & Htq).
+      rewrite Htq by (rewrite Hin; discriminate).
+      unfold Loop.monitor. eapply monitor_loop_Pend; [ | exact HP | apply Nat.lt_succ_diag_r].
+      eapply enter_Running with (s := s) (h := HWake tid); eauto.
+      constructor; ssimpl; auto.
+      + rewrite fupd_eq. unfold with_status. simpl. rewrite Hcan, Htq by (rewrite Hin; discriminate). reflexivity.
+      + intros tid' Hne. now rewrite fupd_neq.
+    - assert (E : run_handle (HDoneCb tid) (set_ready r s) = set_ready r s).
+      { assert (Hd : status s tid = TDone) by (apply (m_donecb HM); rewrite Hr; now left).
+        unfold run_handle. ssimpl. destruct (rtasks s (t_key (tasks s tid))) as [tid' | ] eqn:Hrt; auto.
+        destruct (Nat.eqb_spec tid' tid); auto. subst.
+        destruct (HK (t_key (tasks s tid))) as (_ & _ & C). destruct (C _ Hrt) as (_ & H2 & _). tauto. }
+      rewrite E. exact HP.
+  Qed.
+
+  Lemma run_handles_Pend : forall n s, Inv None s -> Pend s -> Pend (run_handles n s).
+  Proof.
+    induction n as [ | n IH]; intros s HI HP; simpl; auto.
+    destruct (ready s) as [ | h r] eqn:Hr; auto.
+    apply IH.
+    - apply run_handle_Inv; auto.
+    - apply run_handle_Pend; auto.
+  Qed.
+
+  Lemma step_Pend : forall s o, Inv None s -> Pend s -> wf_op o -> Pend (step s o).
+  Proof.
+    intros s o HI HP Hwf. unfold step. rewrite (m_err (proj1 HI)).
+    destruct o as [k v deps | k | ].
+    - eapply offer_Pend; eauto.
+    - apply delete_Pend; auto.
+    - apply run_handles_Pend; auto.
+  Qed.
+
+  Lemma init_Pend : Pend init.
+  Proof. intros R e d g Hc. discriminate. Qed.
+
+  Lemma run_from_Pend : forall ops s,
+    Inv None s -> Pend s -> Forall wf_op ops -> Pend (fold_left step ops s).
+  Proof.
+    induction ops as [ | o ops IH]; intros s HI HP Hwf; simpl; auto.
+    inversion Hwf; subst. apply IH; auto.
+    - apply step_Inv; auto.
+    - apply step_Pend; auto.
+  Qed.
+
+  Theorem run_Pend : forall ops, Forall wf_op ops -> Pend (run ops).
+  Proof. intros. apply run_from_Pend; auto. apply init_Inv. apply init_Pend. Qed.
+
+  (* ================================================================ theorems *)
+
+  (* every cached entry saw the current generation of each declared dependency *)
+  Definition coherent (s : state) : Prop :=
+    forall R e d g, cache s R = Some e -> In (d, g) (c_seen e) -> g = gens s d.
+
+  (* the watcher of a cached entry, in one of its three live phases *)
+  Definition watched (s : state) (k tid : nat) : Prop :=
+    rtasks s k = Some tid /\ t_key (tasks s tid) = k /\ t_cancel (tasks s tid) = false /\
+    ((status s tid = TNew /\ In (HStart tid) (ready s)) \/
+     (status s tid = TWoken /\ In (HWake tid) (ready s) /\ t_queue (tasks s tid) = queues s k) \/
+     (status s tid = TWaiting /\ t_queue (tasks s tid) = queues s k /\
+      forall q, queues s k = Some q -> q_getter (heap s q) = Some tid /\ q_items (heap s q) = [])).
+
+  Lemma Inv_watched : forall s k tid, Inv None s -> rtasks s k = Some tid -> watched s k tid.
+  Proof.
+    intros s k tid [HM HK] Hr. destruct (HK k) as (A & B & C).
+    destruct (C _ Hr) as (C1 & C2 & C3). destruct (m_rt HM _ Hr) as [_ Hk].
+    unfold watched. splits; auto.
+    destruct (t_status (tasks s tid)) eqn:Hst.
+    - left. split; auto. apply (m_start HM); auto.
+    - exfalso. apply (m_running HM) in Hst. discriminate.
+    - right. right. splits; auto; try (apply C3; discriminate).
+      intros q Hq. assert (Htq : t_queue (tasks s tid) = Some q) by (rewrite C3; [auto | discriminate]).
+      split; [apply (m_getter HM); auto | eapply (m_wait_empty HM); eauto].
+    - right. left. splits; auto; try (apply C3; discriminate). apply (m_wake HM); auto.
+    - congruence.
+  Qed.
+
+  Theorem watch_cached_thm : forall ops, Forall wf_op ops ->
+    forall k e, cache (run ops) k = Some e ->
+    subs (run ops) k = dedup (c_deps e) /\
+    (forall d, In d (c_deps e) <-> In k (rsubs (run ops) d)) /\
+    (exists q, queues (run ops) k = Some q /\ q_shut (heap (run ops) q) = false /\
+               ~ In EKill (q_items (heap (run ops) q))) /\
+    (c_deps e <> [] -> exists tid, watched (run ops) k tid).
+  Proof.
+    intros ops Hwf k e Hc. pose proof (run_Inv Hwf) as HI. destruct HI as [HM HK].
+    destruct (HK k) as (A & B & C).
+    assert (Hs : subs (run ops) k = dedup (c_deps e)) by (rewrite (k_subs A), Hc; auto).
+    splits; auto.
+    - intros d. rewrite <- (m_inverse HM), Hs. symmetry. apply dedup_In.
+    - destruct (queues (run ops) k) as [q | ] eqn:Hq; [ | exfalso; apply (k_cq A); congruence].
+      exists q. destruct (B _ Hq). auto.
+    - intros Hd. destruct (rtasks (run ops) k) as [tid | ] eqn:Hr.
+      + exists tid. apply Inv_watched; auto. split; auto.
+      + exfalso. eapply (k_need A); eauto.
+  Qed.
+
+  Theorem watch_uncached_thm : forall ops, Forall wf_op ops ->
+    forall k, cache (run ops) k = None ->
+    subs (run ops) k = [] /\ (forall d, ~ In k (rsubs (run ops) d)) /\
+    queues (run ops) k = None /\ rtasks (run ops) k = None.
+  Proof.
+    intros ops Hwf k Hc. pose proof (run_Inv Hwf) as [HM HK].
+    destruct (HK k) as (A & B & C).
+    assert (Hs : subs (run ops) k = []) by (rewrite (k_subs A), Hc; auto).
+    splits; auto.
+    - intros d H. apply (m_inverse HM) in H. rewrite Hs in H. destruct H.
+    - destruct (queues (run ops) k) eqn:Hq; auto. exfalso. apply (k_noleak A); congruence.
+    - destruct (rtasks (run ops) k) eqn:Hr; auto. exfalso. apply (k_own A); congruence.
+  Qed.
+
+  (* a task that is nobody's re-preparer is finished, or cancelled with its
+     last step already scheduled: nothing keeps watching for a deleted entry *)
+  Theorem no_stale_watcher_thm : forall ops, Forall wf_op ops ->
+    forall tid, rtasks (run ops) (t_key (tasks (run ops) tid)) <> Some tid ->
+    status (run ops) tid = TDone \/
+    (t_cancel (tasks (run ops) tid) = true /\
+     ((status (run ops) tid = TNew /\ In (HStart tid) (ready (run ops))) \/
+      (status (run ops) tid = TWoken /\ In (HWake tid) (ready (run ops))))).
+  Proof.
+    intros ops Hwf tid Hn. pose proof (run_Inv Hwf) as [HM HK].
+    destruct (m_noncur HM (tid := tid) Hn) as [H | [H1 [H2 | H2]]]; auto; right; split; auto.
+    - left. split; auto. apply (m_start HM); auto.
+    - right. split; auto. apply (m_wake HM); auto.
+  Qed.
+
+  Theorem no_error_thm : forall ops, Forall wf_op ops -> err (run ops) = None.
+  Proof. intros ops Hwf. apply (m_err (proj1 (run_Inv Hwf))). Qed.
+
+  (* pending: stale => a newer event is queued AND its processing is scheduled *)
+  Theorem pending_thm : forall ops, Forall wf_op ops ->
+    forall R e d g, cache (run ops) R = Some e -> In (d, g) (c_seen e) ->
+    g = gens (run ops) d \/
+    (newer (run ops) R /\
+     exists tid, watched (run ops) R tid /\
+                 (In (HStart tid) (ready (run ops)) \/ In (HWake tid) (ready (run ops)))).
+  Proof.
+    intros ops Hwf R e d g Hc Hin.
+    pose proof (run_Inv Hwf) as HI. pose proof (run_Pend Hwf) as HP.
+    destruct (HP R e d g Hc Hin) as [ | Hn]; auto. right. split; auto.
+    destruct HI as [HM HK]. destruct (HK R) as (A & B & C).
+    assert (Hd : c_deps e <> []).
+    { rewrite <- (k_seen A Hc). intros E. apply map_eq_nil in E. rewrite E in Hin. destruct Hin. }
+    destruct (rtasks (run ops) R) as [tid | ] eqn:Hr; [ | exfalso; eapply (k_need A); eauto].
+    exists tid. pose proof (@Inv_watched _ R tid (conj HM HK) Hr) as W. split; auto.
+    destruct W as (_ & _ & _ & [[_ H] | [[_ [H _]] | [_ [_ H]]]]); auto.
+    exfalso. destruct Hn as (q & p & n & t & H1 & H2 & H3 & H4).
+    destruct (H _ H1) as [_ E]. rewrite E in H3. destruct H3.
+  Qed.
+
+  (* THE PROPERTY: idle => coherent *)
+  Theorem idle_coherent_thm : forall ops, Forall wf_op ops ->
+    ready (run ops) = [] -> (forall R, ~ newer (run ops) R) -> coherent (run ops).
+  Proof.
+    intros ops Hwf _ Hidle R e d g Hc Hin.
+    pose proof (run_Pend Hwf) as HP.
+    destruct (HP R e d g Hc Hin) as [ | H]; auto. exfalso. eapply Hidle; eauto.
+  Qed.
+
+  (* stronger: an empty ready queue alone is enough *)
+  Theorem quiescent_coherent_thm : forall ops, Forall wf_op ops ->
+    ready (run ops) = [] -> coherent (run ops).
+  Proof.
+    intros ops Hwf Hr R e d g Hc Hin.
+    destruct (@pending_thm ops Hwf R e d g Hc Hin) as [ | [_ (tid & _ & [H | H])]]; auto;
+      rewrite Hr in H; destruct H.
+  Qed.
+
+  (* what was seen is exactly what was declared *)
+  Theorem seen_covers_deps_thm : forall ops, Forall wf_op ops ->
+    forall R e, cache (run ops) R = Some e -> map fst (c_seen e) = c_deps e.
+  Proof.
+    intros ops Hwf R e Hc. destruct (run_Inv Hwf) as [_ HK].
+    destruct (HK R) as (A & _ & _). apply (k_seen A Hc).
+  Qed.
+
+End WithOrd.
